@@ -41,7 +41,7 @@ PROPS = {
                    "drop of data in memtable", "drop of data in ordered file", "drop of data in out-of-order file", "drop of data in compacted file",
                    "write to dropped series", "measurement re-created after drop", "retention policy re-created after drop", "database re-created after drop",
                    "restart after drop", "crash inside drop", "drop series matched several versioned names"],
-        "assumptions": ["one client, one store node; background work (flush, compaction, merge, index flusher, purge task) runs only as scheduled operations, except the index's real one-second flusher which may fire inside a slow run",
+        "assumptions": ["lazy-load-shard-enable (product default true) is a per-case knob, on in 70 % of the cases: after a restart a shard is opened by the first write or read that needs it", "one client, one store node; background work (flush, compaction, merge, index flusher, purge task) runs only as scheduled operations, except the index's real one-second flusher which may fire inside a slow run",
                         "crash model = process kill: completed file-system calls survive, the in-flight write may land as a page-granular prefix (byte-granular in the WAL); the catalogue (meta service) does not crash",
                         "DROP MEASUREMENT / RETENTION POLICY / DATABASE are judged after the meta service's three steps (mark, store delete, catalogue drop) - while a mark is pending the SQL node resolves nothing under the object",
                         "a series-creating write is followed by an index flush (as in world S: listings and selects may lag until the one-second flusher ran); the exact listing variants are only required to show a series after a flush of every shard",
